@@ -18,7 +18,7 @@ func init() {
 			"(4) lock order — the inter-procedural acquired-while-held graph restricted to the in-scope locks is acyclic; " +
 			"(5) the database-wide transaction lock is released on every exit of Commit/Rollback after the active swap (a leaked lock blocks every later transaction: shared with C04/C17).",
 		NotDecided: "absence of data races in general (needs a happens-before detector over executions), panics from index arithmetic, goroutine leaks, Close concurrent with other calls (out of the property's scope).",
-		Rules:      []func(*Ctx, *Reporter){ruleGuardedBy, ruleAtomicConsistency, ruleReentrancyScope, ruleLockOrder, ruleTxRelease},
+		Rules:      []func(*Ctx, *Reporter){ruleGuardedBy, ruleAtomicConsistency, ruleReentrancyScope, ruleLockOrder, ruleTxRelease, ruleLockReleasedOnEveryExit},
 	})
 }
 
